@@ -3,29 +3,47 @@ PydapModel/Proxy.lean).  Tie: every top-level proxy event of real client histori
 objects re-read after every operation) is replayed on the model; the observables of *all* live proxies after every
 event (request ids / hyperslab / selection, decode columns, session) and the log of GETs must agree.
 Oracle (independent of the model): url/columns/session of every earlier object unchanged, every re-read returns
-what the first read returned, a derived object reads what a fresh client applying the same selection reads."""
+what the first read returned, a derived object reads what a fresh client applying the same selection reads.
+Round 2: BaseType / GridType objects are part of the traced heap (variable[index], grid[key] with output_grid on/off; the
+GET log contains the map requests; data of every variable — proxy reference or received positions — snapshotted)."""
 import common
 from props import clientsim as cs
 
 LEVEL = "proof"
 
 
-def one_history(ctx, rng_label, n_ops, kind="plain", idx=0, ops=None, fresh=True):
+def one_history(ctx, rng_label, n_ops, kind="plain", idx=0, ops=None, fresh=True, output_grid=False):
     rng = ctx.rng(rng_label)
     if ops is None:
         ops = cs.gen_history(rng, n_ops)
-    case = {"session": kind, "ops": cs.ops_json(ops), "label": rng_label}
-    sim = cs.Sim(kind)
+    case = {"session": kind, "ops": cs.ops_json(ops), "label": rng_label, "output_grid": output_grid}
+    sim = cs.Sim(kind, output_grid=output_grid)
     hr = cs.HistoryRun(ctx, sim, ops, case).run()
     if fresh and not hr.failed:
         hr.fresh_equiv()
     kinds = sorted(set(o[0] if o[0] != "derive" else o[2][0] for o in ops))
     n_der = len([o for o in ops if o[0] == "derive"])
-    ctx.count((kind, repr(ops)), n_der > 0, tag="%s:ops=%d:derivations=%d" % (kind, len(ops), min(n_der, 4)),
+    n_grid = len([o for o in ops if o[0] in ("grid", "gsub", "gmap", "gvar")])
+    ctx.count((kind, output_grid, repr(ops)), n_der > 0 or n_grid > 0,
+              tag="%s:ops=%d:derivations=%d:gridreads=%d:output_grid=%s" % (kind, len(ops), min(n_der, 4), min(n_grid, 4),
+                                                                           output_grid),
               sample={"ops": cs.ops_json(ops)[:4], "events": len(sim.tr.events)})
     for k in kinds:
         ctx.tags["op:" + k] += 1
     return sim, hr, case
+
+
+def _fix_targets(ops):
+    """after shuffling, make sequence derivations / reads refer to live objects that exist at that point"""
+    out, live = [], 1
+    for o in ops:
+        if o[0] == "derive":
+            o = ("derive", o[1] % live, o[2])
+            live += 1
+        elif o[0] == "read":
+            o = ("read", o[1] % live)
+        out.append(o)
+    return out
 
 
 FIXED = [
@@ -45,6 +63,21 @@ def explore(ctx, tier, search=False):
     for label, ops in todo:
         rng = ctx.rng(label + "/len")
         sim, hr, case = one_history(ctx, label, rng.randint(1, 8), ops=ops)
+        cases.append((sim.model_line(), sim.impl_output(), case))
+    # traced grid histories: the opened grid with output_grid on (the DAPHandler default: array *and* maps are
+    # requested) and off, its maps read on their own, grids returned by earlier reads indexed again, mixed with
+    # sequence derivations; every BaseType / GridType / proxy object is snapshotted after every event
+    ng = 40 if (tier == "quick" and not search) else 1000
+    for i in range(ng):
+        label = "gh/%d" % i
+        rng = ctx.rng(label)
+        ops = cs.gen_grid_ops(rng, rng.randint(1, 6))
+        if i % 4 == 3:
+            ops = ops + cs.gen_history(rng, rng.randint(1, 3))
+            rng.shuffle(ops)
+            ops = [o for o in ops if o[0] != "derive"] if False else ops
+        ops = _fix_targets(ops)
+        sim, hr, case = one_history(ctx, label, 0, ops=ops, output_grid=(i % 3 != 2), fresh=False)
         cases.append((sim.model_line(), sim.impl_output(), case))
     ctx.correspond("proxy heap: observables of all live objects after every event + GET log", cases)
 
@@ -189,7 +222,8 @@ def grid_pass(ctx, tier, search=False):
 def run(ctx):
     ctx.rule = ("seeded random histories of 1..8 user operations {seq[cols], seq[cond], seq[a:b(:k)], seq[int], seq[name], "
                 "read, array[index], grid[index], DAP4 variable[index], server function call+read} applied to arbitrary "
-                "earlier results of one opened dataset; plus array/grid/map read histories (2..6 reads, output_grid on/off, every "
+                "earlier results of one opened dataset; traced grid histories (1..6 reads of the opened grid with output_grid on/off, "
+                "of its maps, of grids returned by earlier reads and of their variables, mixed with sequence operations); plus array/grid/map read histories (2..6 reads, output_grid on/off, every "
                 "earlier read repeated after every later one, compared with numpy); "
                 "earlier results of one opened dataset, every live object re-read after every operation, plus fixed "
                 "histories; a history is non-trivial when it contains a derivation; distinct by operation list")
@@ -220,7 +254,7 @@ def replay(payload):
             print(fl["what"], "observed", fl["observed"], "expected", fl["expected"])
         return ok
     ops = cs.ops_unjson(c["ops"])
-    sim = cs.Sim(c.get("session", "plain"))
+    sim = cs.Sim(c.get("session", "plain"), output_grid=c.get("output_grid", False))
     hr = cs.HistoryRun(ctx, sim, ops, c).run()
     if not hr.failed:
         hr.fresh_equiv()
